@@ -1,11 +1,13 @@
 package handlers
 
 import (
+	"bytes"
 	"encoding/json"
 	"net/http"
 	"sort"
 	"strconv"
 	"strings"
+	"sync"
 	"time"
 
 	"github.com/thushan/olla/internal/core/constants"
@@ -63,6 +65,13 @@ var (
 	modelGroupPool    = make([]ModelGroupSummary, 0, 16)
 )
 
+// modelStatusMu serialises the building of a models status answer. The buffers above are
+// package-level and reused by every request; two requests building their answers at once cleared
+// and filled each other's maps (wrong counts, half-built listings) and could take the whole
+// process down with "concurrent map iteration and map write". The answer is encoded under the
+// lock, because it refers to those buffers, and sent to the client after it is released.
+var modelStatusMu sync.Mutex
+
 func (a *Application) modelsStatusHandler(w http.ResponseWriter, r *http.Request) {
 	ctx := r.Context()
 
@@ -81,6 +90,7 @@ func (a *Application) modelsStatusHandler(w http.ResponseWriter, r *http.Request
 		return
 	}
 
+	modelStatusMu.Lock()
 	for k := range endpointNamesPool {
 		delete(endpointNamesPool, k)
 	}
@@ -104,9 +114,18 @@ func (a *Application) modelsStatusHandler(w http.ResponseWriter, r *http.Request
 		response.ModelGroups = a.groupModelsByFamilyWithDetails(allModels)
 	}
 
+	var body bytes.Buffer
+	encodeErr := json.NewEncoder(&body).Encode(response)
+	modelStatusMu.Unlock()
+
+	if encodeErr != nil {
+		http.Error(w, "Failed to encode models", http.StatusInternalServerError)
+		return
+	}
+
 	w.Header().Set(constants.HeaderContentType, constants.ContentTypeJSON)
 	w.WriteHeader(http.StatusOK)
-	json.NewEncoder(w).Encode(response)
+	w.Write(body.Bytes())
 }
 
 func (a *Application) buildModelSummaries(modelMap map[string]*domain.EndpointModels, endpointNames map[string]string) []ModelSummary {
